@@ -2,6 +2,7 @@
 //      accepted configurations survive a full cycle
 #include "lib.hpp"
 #include <climits>
+#include <pthread.h>
 using namespace fw;
 using namespace lib;
 
@@ -27,7 +28,7 @@ static const char *FN[] = {"backend_available", "instance_create", "instance_des
                            "get_aligned_data_size", "get_minimum_encode_size", "get_fragment_size", "get_version"};
 // argument kinds and their alternatives (0 is always the valid choice)
 enum { A_DESC, A_PTR, A_NUMFRAGS, A_FRAGLEN, A_DEST, A_BEID, A_VNUM, A_SIZE };
-static const int ALT[] = {7, 2, 5, 4, 5, 5, 4, 1};
+static const int ALT[] = {8, 2, 5, 4, 5, 5, 4, 1};
 struct FnSpec { int nargs; int kinds[7]; };
 static const FnSpec SPEC[F_COUNT] = {
     /* available */ {1, {A_BEID}},
@@ -48,9 +49,11 @@ static const FnSpec SPEC[F_COUNT] = {
     /* version */ {0, {}},
 };
 
+static int g_xdead = -1;      // descriptor this thread looked up and ANOTHER thread then destroyed
 static int desc_alt(int choice, int valid, int dead) {
-    switch (choice) { case 0: return valid; case 1: return dead; case 2: return valid + 100003; case 3: return -1; case 4: return 0; case 5: return INT_MAX; default: return INT_MIN; }
+    switch (choice) { case 0: return valid; case 1: return dead; case 2: return valid + 100003; case 3: return -1; case 4: return 0; case 5: return INT_MAX; case 6: return INT_MIN; default: return g_xdead; }
 }
+static void *destroy_on_thread(void *p) { int *d = (int *)p; d[1] = liberasurecode_instance_destroy(d[0]); return nullptr; }
 
 static Result run_grid(const Case &c) {
     Result r;
@@ -64,6 +67,16 @@ static Result run_grid(const Case &c) {
     if (!in.ok()) { r.fail("create refused"); return r; }
     int dead;
     { Instance tmp(g); dead = tmp.desc; }
+    {   // looked up here, destroyed by a helper thread (joined): must be dead for this thread as well
+        Instance tmp(g);
+        int dd[2] = {tmp.desc, 777};
+        if (tmp.ok() && liberasurecode_get_minimum_encode_size(tmp.desc) > 0) {
+            pthread_t th;
+            if (pthread_create(&th, nullptr, destroy_on_thread, dd) == 0) { pthread_join(th, nullptr); if (dd[1] == 0) tmp.desc = -1; }
+        }
+        g_xdead = dd[0];
+        if (tmp.desc != -1) g_xdead = dead;      // could not set the scene: fall back to the ordinary dead descriptor
+    }
     std::vector<uint8_t> data((size_t)g.k * ref::word_bytes(g) * 2 + 3, 0x5c);
     for (size_t i = 0; i < data.size(); i++) data[i] = (uint8_t)(i * 7 + 1);
     Stripe s = encode(in.desc, g, data);
@@ -186,8 +199,8 @@ static Result run_grid(const Case &c) {
     for (int i = 0; i < SPEC[fn].nargs; i++) what += std::to_string(ch[i]) + (i + 1 < SPEC[fn].nargs ? "," : "");
     switch (want) {
     case WANT_NEG: if (rc >= 0) r.fail(what + " returned " + std::to_string(rc) + ", expected a negative error code" + (extra.empty() ? "" : " (" + extra + ")")); break;
-    case WANT_ONE: if (rc != 1) r.fail(what + " returned " + std::to_string(rc) + ", expected 1"); break;
-    case WANT_ZERO: if (rc != 0) r.fail(what + " returned " + std::to_string(rc) + ", expected 0"); break;
+    case WANT_ONE: if (rc == 0) r.fail(what + " returned 0 (valid), expected the documented failure report (non-zero)"); break;
+    case WANT_ZERO: if (rc > 0) r.fail(what + " returned " + std::to_string(rc) + " (available) for an invalid back-end id"); break;
     case WANT_OK: if (rc != 0) r.fail(what + " (all arguments valid) returned " + std::to_string(rc)); break;
     case WANT_ANY: break;
     }
